@@ -6,6 +6,8 @@ from typing import final
 
 from mypy_extensions import mypyc_attr
 
+from pyjelly.errors import JellyConformanceError
+
 
 @mypyc_attr(allow_interpreted_subclasses=True)
 @final
@@ -32,9 +34,14 @@ class Lookup:
         self.data = OrderedDict[str, int]()
         self.max_size = max_size
         self._evicting = False
+        # Keys referenced by the group of rows being encoded (one statement);
+        # None while nobody tracks statement boundaries.
+        self.in_use: set[str] | None = None
 
     def make_last_to_evict(self, key: str) -> None:
         self.data.move_to_end(key)
+        if self.in_use is not None:
+            self.in_use.add(key)
 
     def insert(self, key: str) -> int:
         if not self.max_size:
@@ -42,12 +49,20 @@ class Lookup:
             raise IndexError(msg)
         assert key not in self.data, f"key {key!r} already present"
         if self._evicting:
+            if self.in_use is not None and next(iter(self.data)) in self.in_use:
+                msg = (
+                    f"lookup of size {self.max_size} cannot hold all the entries "
+                    "needed by a single statement"
+                )
+                raise JellyConformanceError(msg)
             _, index = self.data.popitem(last=False)
             self.data[key] = index
         else:
             index = len(self.data) + 1
             self.data[key] = index
             self._evicting = index == self.max_size
+        if self.in_use is not None:
+            self.in_use.add(key)
         return index
 
     def __repr__(self) -> str:
